@@ -96,11 +96,14 @@ Definition extend_enum (st : enum_state) (name : string) (value : Z) : enum_stat
   if existsb (name_is name) (entries st) then inr TypeError
   else inl (mkState (defined st) (extra st ++ [(name, value)])).
 
-(* EnumMeta.__call__(cls, value) for an int *)
+(* EnumMeta.__call__(cls, value) for an int (Python 3.12: a class without members refuses to be called) *)
 Definition super_call (st : enum_state) (v : Z) : member + err :=
-  match by_value (entries st) v with
-  | Some m => inl m
-  | None => inr ValueError
+  match entries st with
+  | [] => inr TypeError
+  | _ => match by_value (entries st) v with
+         | Some m => inl m
+         | None => inr ValueError
+         end
   end.
 
 Inductive outcome :=
@@ -128,7 +131,7 @@ Definition call (st : enum_state) (v : Z) (strict : bool) : enum_state * outcome
   | inl m =>
       if strict && is_hidden m then (st, OErr ValueError)        (* raised inside try, re-raised by the handler *)
       else (st, OMember m)
-  | inr _ =>
+  | inr ValueError =>
       if strict then (st, OErr ValueError)
       else match extend_enum st (hidden_name v) v with
            | inr e => (st, OErr e)
@@ -137,6 +140,7 @@ Definition call (st : enum_state) (v : Z) (strict : bool) : enum_state * outcome
                         | inr e => (st', OErr e)
                         end
            end
+  | inr e => (st, OErr e)                                        (* not a ValueError: not handled *)
   end.
 
 (* DynamicEnumMeta.from_string(name, case_insensitive=False) (lines 63-68) *)
@@ -302,9 +306,10 @@ Definition allowed (d : list member) (o : op) : bool :=
   end.
 
 (* what must hold of a class body for the library's naming convention to work: no defined member carries the
-   reserved prefix, and the prefix is its own upper-case form (checked for every generated table) *)
+   reserved prefix, there is at least one member (Python 3.12 refuses to call a class without members), and the
+   prefix is its own upper-case form (checked for every generated table) *)
 Definition table_ok (d : list member) : bool :=
-  forallb (fun e => negb (starts_with unrecognized_prefix (fst e))) d.
+  match d with [] => false | _ => forallb (fun e => negb (starts_with unrecognized_prefix (fst e))) d end.
 Definition prefix_ok : bool := String.eqb (upper unrecognized_prefix) unrecognized_prefix.
 
 (* ---------------------------------------------------------------------------------------------------------- *)
